@@ -73,7 +73,7 @@ Theorem after_pad lo cfg s1 rest L : Inv lo cfg -> head' (g_ring cfg) (g_cons cf
   pad_facts R s1 rest L ->
   exists swept suffix pad,
     r_slots R = swept ++ suffix /\ swept <> [] /\ Forall (fun s => s_len s <= 0 /\ s_pos s < r_head R + align L 8) swept /\
-    s_type pad = PAD /\ s_pos pad = r_head R /\ s_span pad = span_sum swept /\
+    s_type pad = PAD /\ s_pos pad = r_head R /\ s_span pad = span_sum swept /\ s_seq pad = -1 /\
     let cfg' := mkCfg (set_slots R (pad :: suffix)) (g_cons cfg) (retire swept (g_prods cfg)) in
     Inv lo cfg' /\ render (g_ring cfg') = render (set_slots R (set_hdr L PAD s1 :: rest)).
 Proof.
@@ -113,7 +113,7 @@ Proof.
   split; [exact Esw |]. split; [discriminate |]. split.
   { pose proof (tiled_range _ _ _ _ Tsw) as RgS. rewrite Forall_forall in Hsw0, RgS |- *. intros y Hy.
     split; [exact (Hsw0 y Hy) |]. destruct (RgS y Hy) as (_ & Yb & (_ & _ & Ys & _)). lia. }
-  split; [reflexivity |]. split; [reflexivity |]. split; [cbn [pad s_span]; lia |].
+  split; [reflexivity |]. split; [reflexivity |]. split; [cbn [pad s_span]; lia |]. split; [reflexivity |].
   cbn zeta.
   pose proof (ext_retire swept (g_prods cfg)) as X.
   (* every swept slot belongs to a producer in flight, and that producer owns nothing else *)
@@ -201,7 +201,7 @@ Proof.
   intros HI Hid. cbn zeta. intros Hu.
   destruct (unblock_spec lo cfg HI Hid) as (_ & _ & _ & U4).
   destruct (U4 Hu) as (s1 & rest & L & Es & Hneg & ER1 & HL & Hfit & Hend & Hb & Hblank & Hnegl & Hstrict). clear U4.
-  rewrite ER1. destruct (after_pad lo cfg s1 rest L HI (idle_head' _ _ Hid) Hid) as (swept & suffix & pad & A & B & C & D).
+  rewrite ER1. destruct (after_pad lo cfg s1 rest L HI (idle_head' _ _ Hid) Hid) as (swept & suffix & pad & A & B & C & D1 & D2 & D3 & _ & D).
   { unfold pad_facts. repeat split; assumption. }
-  exists swept, suffix, pad. split; [exact A |]. split; [exact B |]. split; [| exact D].
+  exists swept, suffix, pad. split; [exact A |]. split; [exact B |]. split; [| split; [exact D1 | split; [exact D2 | split; [exact D3 | exact D]]]].
   eapply Forall_impl; [| exact C]. cbn. intros a (Ha & _). exact Ha. Qed.
